@@ -1,4 +1,4 @@
-import RV.C01.Model
+import RV.C01.NModel
 import RV.Base.Proto
 /-
   C01 driver.  Terms and graph identifiers are naturals owned by the harness; `*` = wildcard.
@@ -22,6 +22,9 @@ import RV.Base.Proto
                                             listed triples (R: g OP other, L: other OP g);  sbinl OP i R|L … likewise
     iopen k g s p o                      -> ok            (generator k starts now)
     iyield k s p o                       -> adm | NOT-adm (could the machine yield this triple now?)
+    gopen k g s p o                      -> ok            (concrete generator k = graph g's triples(pattern), not yet begun)
+    gnext k                              -> s,p,o | stop | error   (one next() of the concrete generator machine `NGen`)
+  `tri` / `utri` / `mtri` are answered by running the concrete generator machine to exhaustion (`NMem.drain`).
   Simple stores i ∈ {0,1} (one graph each, identifier 50+i):
     sadd i s p o | sremove i s p o | sset i s p o | saddN i (s p o c k)* | siadd i (s p o)* | sisub i (s p o)*
     siaddS i j | sisubS i j              (operand = the graph of simple store j)
@@ -30,11 +33,14 @@ import RV.Base.Proto
 -/
 open RV RV.C01 RV.Proto
 
+/- Round g: the state is the NESTED-dictionary model (`NModel.lean`): `NMem` for the default store, `NSMem` for the
+   simple stores; every answer below is computed by the walks over the nested indexes. -/
 structure DS where
-  m : Mem := {}
-  s0 : SMem := {}
-  s1 : SMem := {}
+  m : NMem := {}
+  s0 : NSMem := {}
+  s1 : NSMem := {}
   its : List (Nat × Iter) := []
+  gens : List (Nat × NGen) := []
 
 def tripleLt (a b : Triple) : Bool := lexLt [a.1, a.2.1, a.2.2] [b.1, b.2.1, b.2.2]
 
@@ -72,13 +78,13 @@ def quads? : List String → Option (List Quad)
     pure ((t, d, k == 1) :: qs)
   | _ => none
 
-def ack (m : Mem) : String := if m.err then "error" else "ok"
-def sack (m : SMem) : String := if m.err then "error" else "ok"
+def ack (m : NMem) : String := if m.cx.err then "error" else "ok"
+def sack (m : NSMem) : String := if m.err then "error" else "ok"
 
-def DS.mut (d : DS) (m : Mem) : DS × String := ({ d with m := m }, ack m)
+def DS.mut (d : DS) (m : NMem) : DS × String := ({ d with m := m }, ack m)
 
-def DS.sget (d : DS) (i : Nat) : SMem := if i == 0 then d.s0 else d.s1
-def DS.sput (d : DS) (i : Nat) (s : SMem) : DS × String :=
+def DS.sget (d : DS) (i : Nat) : NSMem := if i == 0 then d.s0 else d.s1
+def DS.sput (d : DS) (i : Nat) (s : NSMem) : DS × String :=
   (if i == 0 then { d with s0 := s } else { d with s1 := s }, sack s)
 
 def sidx? (w : String) : Option Nat := if w = "0" then some 0 else if w = "1" then some 1 else none
@@ -106,7 +112,7 @@ def iterAdm (d : DS) (k : Nat) (t : Triple) : DS × String :=
     if it.fast then
       if t ∈ it.pending then ({ d with its := aset d.its k { it with pending := sremove it.pending t } }, "adm")
       else (d, "NOT-adm")
-    else if it.pat.matches t && hasCtx d.m t (some it.g) then (d, "adm") else (d, "NOT-adm")
+    else if it.pat.matches t && d.m.hasCtx t (some it.g) then (d, "adm") else (d, "NOT-adm")
 
 def step (d : DS) : List String → DS × String
   | ["reset"] => ({}, "ok")
@@ -153,7 +159,7 @@ def step (d : DS) : List String → DS × String
     | _, _ => (d, "bad-op")
   | ["tri", g, a, b, c] =>
     match g.toNat?, pat? a b c with
-    | some g, some p => (d, if triplesRaises d.m p then "error" else showTriples (triples d.m p (some g)))
+    | some g, some p => (d, if d.m.triplesRaises p then "error" else showTriples (d.m.drain p (some g)))
     | _, _ => (d, "bad-op")
   | ["madd", c, a, b, c'] =>
     match c.toNat?, triple? a b c' with
@@ -173,7 +179,7 @@ def step (d : DS) : List String → DS × String
     | none => (d, "bad-op")
   | ["mtri", c, a, b, c'] =>
     match optNat? c, pat? a b c' with
-    | some c, some p => (d, if triplesRaises d.m p then "error" else showTriplesC (d.m.triplesC p c))
+    | some c, some p => (d, if d.m.triplesRaises p then "error" else showTriplesC ((d.m.drain p c).map (fun t => (t, ctxKeys d.m.cx t))))
     | _, _ => (d, "bad-op")
   | ["mlen", c] =>
     match optNat? c with
@@ -186,7 +192,7 @@ def step (d : DS) : List String → DS × String
   | ["ulen"] => (d, toString (d.m.len none))
   | ["utri", a, b, c] =>
     match pat? a b c with
-    | some p => (d, if triplesRaises d.m p then "error" else showTriples (triples d.m p none))
+    | some p => (d, if d.m.triplesRaises p then "error" else showTriples (d.m.drain p none))
     | none => (d, "bad-op")
   | ["bin", op, g, h] =>
     match g.toNat?, h.toNat? with
@@ -213,8 +219,34 @@ def step (d : DS) : List String → DS × String
     | _, _ => (d, "bad-op")
   | ["iopen", k, g, a, b, c] =>
     match k.toNat?, g.toNat?, pat? a b c with
-    | some k, some g, some p => ({ d with its := aset d.its k (Iter.start d.m p g) }, "ok")
+    | some k, some g, some p => ({ d with its := aset d.its k (Iter.start d.m.toMem p g) }, "ok")
     | _, _, _ => (d, "bad-op")
+  -- tch g SLOT a b c1 c2 …  : graph g's triples_choices, SLOT ∈ {s,p,o} holds the list c1 c2 …, a b = the two other positions
+  | "tch" :: g :: sl :: a :: b :: cs =>
+    match g.toNat?, optNat? a, optNat? b, cs.mapM (fun w => w.toNat?) with
+    | some g, some a, some b, some cs =>
+      if sl = "s" then (d, showTriples (d.m.triplesChoices .s cs a b (some g)))
+      else if sl = "p" then (d, showTriples (d.m.triplesChoices .p cs a b (some g)))
+      else if sl = "o" then (d, showTriples (d.m.triplesChoices .o cs a b (some g)))
+      else (d, "bad-op")
+    | _, _, _, _ => (d, "bad-op")
+  | ["gopen", k, g, a, b, c] =>
+    match k.toNat?, g.toNat?, pat? a b c with
+    | some k, some g, some p => ({ d with gens := aset d.gens k (NGen.new p (some g)) }, "ok")
+    | _, _, _ => (d, "bad-op")
+  | ["gnext", k] =>
+    match k.toNat? with
+    | some k =>
+      match alookup d.gens k with
+      | none => (d, "bad-op")
+      | some gen =>
+        if gen.nextRaises d.m then (d, "error")
+        else
+          ({ d with gens := aset d.gens k (gen.next d.m).1 },
+            match (gen.next d.m).2 with
+            | some t => showNats [t.1, t.2.1, t.2.2]
+            | none => "stop")
+    | none => (d, "bad-op")
   | ["iyield", k, a, b, c] =>
     match k.toNat?, triple? a b c with
     | some k, some t => iterAdm d k t
